@@ -572,7 +572,15 @@ func (s *bsys) Key() string {
 	fmt.Fprintf(&sb, "%v %d |", s.horiz, s.ext)
 	for i, k := range s.kids {
 		fmt.Fprintf(&sb, "%d,%d,%v;", k.pw, k.ph, s.fills[i])
+		// implementation side: the geometry the layout gave this child
+		if vp, ok := k.view.(*views.ViewPort); ok {
+			a, b, c, d := vp.GetPhysical()
+			e, f, g, h := vp.GetVisible()
+			fmt.Fprint(&sb, a, b, c, d, e, f, g, h)
+		}
 	}
+	bw, bh := s.bl.Size()
+	fmt.Fprint(&sb, bw, bh)
 	return sb.String()
 }
 
